@@ -40,6 +40,12 @@ CTXS = [('fp.FP16', 'binary16', 'nearestEven'), ('fp.FP32', 'binary32', 'nearest
 FUNC_CTXS = [None, None, 'fp.FP32', 'fp.FP16', 'fp.IEEEContext(8, 32, fp.RM.RTP)']
 
 
+XOPS1 = ['cbrt', 'ceil', 'floor', 'trunc', 'roundint']
+XFUNS = ['exp', 'log', 'sin', 'cos', 'atan', 'tanh', 'exp2', 'log2', 'expm1', 'log1p']
+XOPS2 = ['copysign', 'fmod', 'remainder', 'hypot']
+XPREDS = ['isnan', 'isinf', 'isfinite', 'signbit']
+
+
 class Gen:
     """programs of the FPCore-expressible subset; every `/ <marker>` division carries a unique integer literal >= 1000"""
 
@@ -70,6 +76,24 @@ class Gen:
             return r.choice(['1', '2', '3', '7', 'fp.round(0.1)', 'fp.round(2.5)', 'fp.round(1e-3)', '10'])
         op = r.choice(['+', '-', '*', '/', 'mark', 'mark', 'neg', 'abs', 'sqrt', 'fma', 'ifexpr', 'min', 'max'])
         a = lambda: self.expr(vars_, d - 1, scope)
+        if r.random() < 0.16:
+            # the other operators the FPCore tables map one to one (backend/fpc.py and frontend/fpc.py).  Left out because the reference
+            # evaluator deviates (measured on titanfp alone, DESIGN 6.2): nearbyint (ignores the rounding mode: 1.5 -> 1 under nearestEven),
+            # fdim (NaN for equal infinities, C says +0), isnormal (FPCore: relative to the precision; FPy: of the unrounded argument),
+            # transcendental functions under a directed mode (expm1 / log1p one ulp off under toPositive); copysign's sign operand is
+            # kept away from NaN (the sign of a NaN is not part of the value)
+            nearest = scope[1] in ('nearestEven', 'nearestAway')
+            x = r.choice(XOPS1 + XOPS2 + ['predsel', 'powi'] + (XFUNS if nearest else []))
+            if x in XOPS1 or x in XFUNS:
+                return f'fp.{x}({a()})'
+            if x == 'copysign':
+                b = a()
+                return f'fp.copysign({a()}, ({b} if {b} == {b} else 1))'
+            if x in XOPS2:
+                return f'fp.{x}({a()}, {a()})'
+            if x == 'powi':
+                return f'fp.pow({a()}, {r.choice(["2", "3", "-1"])})'
+            return f'({a()} if fp.{r.choice(XPREDS)}({a()}) else {a()})'
         if op in '+-*/':
             return f'({a()} {op} {a()})'
         if op == 'mark':
